@@ -14,6 +14,7 @@ import (
 	"fmt"
 	"math/rand"
 	"regexp"
+	"runtime"
 	"sort"
 	"strconv"
 	"strings"
@@ -525,7 +526,7 @@ func (m *monitor) checkMove(c *opCase, st *state, line string, vid uint32, srcId
 	if lib.PlacementSatisfied(x, y, z, before) {
 		r.Count("moves_of_volumes_with_satisfied_placement", 1)
 		if !lib.PlacementSatisfied(x, y, z, after) {
-			m.viol(c, line, lib.Sig{"op": c.Op, "class": "placement-broken", "rp": rep.vol.Rp, "replica_count": cmpCount(len(before), 1+x+y+z)},
+			m.viol(c, line, lib.Sig{"op": c.Op, "class": "placement-broken", "rp": rep.vol.Rp, "rp_shape": rpShape(x, y, z), "replica_count": cmpCount(len(before), 1+x+y+z)},
 				map[string]interface{}{"replicas_before": before, "replicas_after": after})
 		}
 	} else {
@@ -768,6 +769,16 @@ func (m *monitor) checkDelete(c *opCase, st *state, line string, vid uint32, nod
 	}
 }
 
+// rpShape names the input class of a replication setting as far as the planners'
+// placement test is concerned: with other data centers AND two other racks the
+// total number of racks no longer determines how they are spread over data centers.
+func rpShape(x, y, z int) string {
+	if x >= 1 && y >= 2 {
+		return "other-dcs-and-two-other-racks"
+	}
+	return rpKind(x, y, z)
+}
+
 func rpKind(x, y, z int) string {
 	var k []string
 	if x > 0 {
@@ -841,6 +852,7 @@ func casesFor(rng *rand.Rand, s *snapshot) []*opCase {
 
 func main() {
 	r := lib.Start("C15", "exploration")
+	runtime.GOMAXPROCS(2) // single-threaded driver on a shared machine
 	r.SetRule("random TopologyInfo snapshots (1-3 data centers, up to 3 racks each, 2-12 servers, hdd/ssd, 3-32 volumes with placements 000..111/200/020/002 plus rarer ones, legal / under- / over-replicated / misplaced replica sets, replicas disagreeing on read-only and size, collections, tight and overfull servers, rack names reused across data centers) fed to the real dry-run planners: volume.balance (ALL_COLLECTIONS, each collection, one collection, optional data center), volumeServer.evacuate (volumes and EC shards) of several servers, volume.fix.replication; every printed step replayed on an independent model. distinct = (snapshot, planner call); non-trivial = the call planned at least one step that was checked")
 	r.Assume("the plan is what the planners print (the dry-run interface); for volume.balance it is cross-checked against the planner's final in-memory replica locations")
 	r.Assume("free capacity for a disk type = configured max volume count of that disk type - all volumes on it (any collection, writable or not), at the moment of the move for balance/evacuate, against the snapshot for fix.replication")
@@ -865,7 +877,7 @@ func main() {
 		r.Finish(0)
 	}
 
-	nSnap := r.Pick(500, 10000)
+	nSnap := r.Pick(500, 6000)
 	rng := r.SubRng("c15-snapshots")
 	for i := 0; i < nSnap; i++ {
 		s := genSnapshot(rng)
